@@ -17,6 +17,7 @@ Record iface_row := {
 Record visitor_row := {
   v_param : string;
   v_pure : bool;
+  v_virtual : bool;              (* declared virtual: accept() must reach the client's overrider *)
   v_defined : bool;              (* a definition was found in src/traversal.cxx *)
   v_forward : list string;       (* parameter classes of the visit overloads its body calls (resolved) *)
   v_stmts : nat                  (* number of statements in that body *)
